@@ -385,3 +385,26 @@ FINDINGS = {
     'F22-server-opens-stream-with-headers': _seq(('server-idle-even', False, ['L:final'])),
     'F23-client-accepts-never-promised-stream': _seq(('client-idle-even', False, ['R:final'])),
 }
+
+
+def _k03():
+    """send_data on a half-closed (local) stream is refused - and closes the stream."""
+    s = Solo(True)
+    s.start()
+    s.call('send_headers', 1, REQ, end_stream=True)
+    o = s.call('send_data', 1, b'x')                     # refused: we already ended the stream
+    o2 = s.feed(wire.headers(1, s.hblock(RESP)))          # the response must still be accepted
+    bad = o.ok or not o2.ok or not any(e[0] == 'ResponseReceived' for e in o2.events)
+    return ['C06:raised-call-not-inert:state-machine-refusal'] if bad else []
+
+
+def _k04():
+    s = Solo(False)
+    s.start()
+    s.feed(wire.headers(1, s.hblock(REQ)))
+    o = s.call('send_data', 1, b'x')
+    return ['C06:send:data-before-final-headers-accepted'] if o.ok else []
+
+
+FINDINGS['K03-refused-local-input-closes-state-machine'] = _k03
+FINDINGS['K04-data-before-response-headers'] = _k04
